@@ -51,6 +51,14 @@ class LeafScenario(Scenario):
                 table = {ast.Eq: sg == 0, ast.NotEq: sg != 0, ast.Gt: sg > 0, ast.GtE: True, ast.Lt: False, ast.LtE: sg == 0}
                 if type(op) in table:
                     return table[type(op)]
+        if isinstance(test, ast.Compare) and len(test.ops) == 1 and type(test.ops[0]) in (ast.Gt, ast.GtE, ast.Lt, ast.LtE, ast.Eq, ast.NotEq):
+            # `L > R` between two numeric expressions: the sign of the VALUE of L - R in this scenario (`ca_plus_cb > ca`: the batch weight)
+            diff = ast.BinOp(left=test.left, op=ast.Sub(), right=test.comparators[0])
+            sg = self.sign_of(diff, env)
+            if sg is not None:
+                op = test.ops[0]
+                table = {ast.Eq: sg == 0, ast.NotEq: sg != 0, ast.Gt: sg > 0, ast.GtE: True, ast.Lt: False, ast.LtE: sg == 0}
+                return table[type(op)]
         if isinstance(test, ast.Call):
             fn = ast.unparse(test.func)
             if fn == "isinstance":
